@@ -38,6 +38,11 @@ CLAIMED = {
             'MessagePack specification: accept sets, length-field and payload widths, signedness, embedded values, ext type-byte offsets, '
             'classification table, and skip extents for every first byte. Exhaustive over the first-byte domain; payload VALUES are not decided.',
             'decision tables by abstract interpretation over a finite exact domain, compared with a hand-written spec oracle', '§5 C07'),
+    'C09': ('other',
+            'Symbolic linear evaluation of every view built from a CSV cell descriptor (exactly [Offset, Offset+Size) in all four ReadValue '
+            'bodies), abstract interpretation of the field-quoting decision over all byte values x separators, presence of the row-width check '
+            'on every row path, separator validation before construction. The scanner state machine itself is not decided.',
+            'dimension typing by linear evaluation + decision table of the quoting predicate + must-pass-through checks', '§5 C09'),
     'C10': ('other',
             'Sibling cross-check of the duplicated memory/stream implementations: equal decision tables of the two MsgPack readers for all '
             'methods x 256 first bytes; writer/CSV twins and stream-positioning discipline as they are added. Decides agreement of the copies, '
